@@ -54,7 +54,7 @@ func (s seqSpace) unrank(i int64) []int {
 
 var c05Tokens = []string{
 	"(", ")", "[", "]", "{", "}", "#{", "«", "»", "'", "`", "~", "~@", "^", "@",
-	"$x", "$", "a", ":k", "1", "-", `"s"`, "¬r¬", ";c\n", "nil", "1.5", "#", "&", `"`, "¬", "atom",
+	"$x", "$", "a", ":k", "1", "-", `"s"`, "¬r¬", ";c\n", "nil", "1.5", "#", "&", `"`, "¬", "atom", `""`,
 }
 
 var c05Bytes = []string{
